@@ -182,6 +182,13 @@ pub fn c09(t: &Trace, r: &mut Report) {
     let mut mask: u16 = 0xfff;
     let mut prev: Option<(u64, f32)> = None; // previous reported note and input
     let mut edited = false;
+    // the previous note was found under an earlier scale and has only been *kept* by the hysteresis since.  The
+    // ramp clause is stated "for a fixed scale" as a consequence ("hence") of the two hysteresis clauses plus the
+    // monotonicity of the history-free conversion; that consequence is valid for every input in the documented
+    // range [0, V_MAX] whatever the cached note is, but for raw inputs above V_MAX (hysteresis sees the raw input,
+    // the history-free search its clamped value) only when the cached note was produced under the current scale.
+    // So a pair is exempt from the ramp check only if the note is stale in this sense AND an input is above V_MAX.
+    let mut stale = false;
     let st = 1.0f64 / 12.0;
     let margin = 2e-5; // f32 resolution of the window edges near 10 V
     walk(t, r, |i, start, op, obs, r| match op[0] {
@@ -189,10 +196,12 @@ pub fn c09(t: &Trace, r: &mut Report) {
             mask = 0xfff;
             prev = None;
             edited = false;
+            stale = false;
         }
         "allow" | "forbid" => {
             mask = edit_mask(mask, op);
             edited = true;
+            stale = prev.is_some();
         }
         "convert" => {
             let c = match parse_conv(obs) {
@@ -232,8 +241,12 @@ pub fn c09(t: &Trace, r: &mut Report) {
                     }
                 }
                 // monotone for a fixed scale
-                if !edited && v >= pv && c.note < p {
+                let exempt = stale && (v > 10.0 || pv > 10.0);
+                if !edited && !exempt && v >= pv && c.note < p {
                     r.fail(i, start, "monotone", format!("input rose {} -> {} but the note fell {} -> {}", pv, v, p, c.note));
+                }
+                if !still || outside {
+                    stale = false; // decided by the history-free search under the current scale
                 }
             } else {
                 decided = true;
